@@ -387,6 +387,11 @@ func checkMeasure(c *core.Ctx, r *core.Rule, addKey, del *ssa.Function) {
 				if isFieldLoad(x.Map, "refs") {
 					refsUpdate = x
 				}
+			case *ssa.Call:
+				// a helper method of the same type that pushes on every path (ctx.push(loc))
+				if cal := x.Common().StaticCallee(); cal != nil && pushStore == nil && core.FuncPkgPath(cal) == core.FuncPkgPath(addKey) && storesFieldOnEveryPath(cal, "locstack") {
+					pushStore = x
+				}
 			}
 		}
 	}
@@ -907,6 +912,41 @@ func sameCellUnchanged(a, b ssa.Value, ia, ib ssa.Instruction) bool {
 			if blockReaches(ia.Block(), sb) && blockReaches(sb, ib.Block()) {
 				return false
 			}
+		}
+	}
+	return true
+}
+
+// storesFieldOnEveryPath: fn stores to the named field in a block that dominates every return.
+func storesFieldOnEveryPath(fn *ssa.Function, field string) bool {
+	if len(fn.Blocks) == 0 {
+		return false
+	}
+	var stores []*ssa.BasicBlock
+	for _, b := range fn.Blocks {
+		for _, in := range b.Instrs {
+			if st, ok := in.(*ssa.Store); ok {
+				if fa, ok := st.Addr.(*ssa.FieldAddr); ok && fieldName(fa.X.Type(), fa.Field) == field {
+					stores = append(stores, b)
+				}
+			}
+		}
+	}
+	if len(stores) == 0 {
+		return false
+	}
+	for _, b := range fn.Blocks {
+		if _, ok := b.Instrs[len(b.Instrs)-1].(*ssa.Return); !ok {
+			continue
+		}
+		dom := false
+		for _, sb := range stores {
+			if sb == b || sb.Dominates(b) {
+				dom = true
+			}
+		}
+		if !dom {
+			return false
 		}
 	}
 	return true
